@@ -58,7 +58,7 @@ def fval(x: float):
     if x in (float("inf"), float("-inf")):
         return {"f": "inf" if x > 0 else "-inf"}
     fr = Fraction(repr(x))
-    return {"f": str(fr.numerator) if fr.denominator == 1 else f"{fr.numerator}/{fr.denominator}"}
+    return {"f": fr.numerator if fr.denominator == 1 else f"{fr.numerator}/{fr.denominator}"}
 
 
 def const_value(node, consts=None):
